@@ -605,6 +605,11 @@ func c17Generated(c *Ctx) {
 				// a third of the rules carry an effect that is neither allow nor deny (indeterminate)
 				r = append(r, []string{"allow", "deny", "none"}[rng.Intn(3)])
 			}
+			// now and then a rule one field short (the management API accepts it): every request that reaches
+			// it is answered with an error, and an error is not a decision that later changes may flip
+			if i%5 == 4 && rng.Intn(4) == 0 {
+				r = r[:len(r)-1]
+			}
 			return r
 		}
 		mkLink := func() []string {
